@@ -398,37 +398,27 @@ func (c *Ctx) c17Lua() {
 				r.Bad("C17/LUA/protect", cons, p.InstrPos(in), "CallByParam without Protect: true: a Lua error() panics the Go caller — in a before-hook that is the SMTP session goroutine, which has no recover, so a broken script kills the server and loses the mail")
 				return
 			}
-			// error edge returns nil (for handlers with a result)
+			// error edge returns nil (for handlers with a result); a helper that reports the
+			// failure as `false` is followed to its callers
 			if fn.Signature.Results().Len() == 1 {
-				bad := ""
+				isErrV := func(v ssa.Value) bool {
+					for _, a := range append(eng.ValueAliases(call), ssa.Value(call)) {
+						if v == a {
+							return true
+						}
+					}
+					return false
+				}
+				var errEdges []*ssa.BasicBlock
 				for _, b := range fn.Blocks {
 					for k := 0; k < len(b.Succs) && len(b.Succs) == 2; k++ {
 						rel, ok := eng.EdgeRel(b, k)
-						if !ok || rel.Op != token.NEQ || !eng.IsNilConst(rel.Y) {
-							continue
-						}
-						isErr := false
-						for _, a := range eng.ValueAliases(call) {
-							if rel.X == a {
-								isErr = true
-							}
-						}
-						if !isErr {
-							continue
-						}
-						hit := eng.BlockReaches(b.Succs[k], func(x ssa.Instruction) bool {
-							ret, ok := x.(*ssa.Return)
-							if !ok {
-								return false
-							}
-							return !eng.IsNilConst(eng.ReturnResults(ret)[0])
-						}, nil)
-						if hit != nil {
-							bad = p.InstrPos(hit)
+						if ok && rel.Op == token.NEQ && eng.IsNilConst(rel.Y) && isErrV(rel.X) {
+							errEdges = append(errEdges, b.Succs[k])
 						}
 					}
 				}
-				if bad != "" {
+				if bad := c.luaFailureYieldsNil(fn, errEdges, 0); bad != "" {
 					r.Bad("C17/LUA/protect", cons, p.InstrPos(in), "on a Lua error the handler returns a non-nil answer at %s instead of behaving as if it had not answered", bad)
 					return
 				}
@@ -619,8 +609,12 @@ func (c *Ctx) c17Pool() {
 		cons := "state-user@" + shortFn(fn)
 		var puts []ssa.Instruction
 		eng.EachInstr(fn, func(in ssa.Instruction) {
-			if cc := eng.CallOf(in); cc != nil && eng.StaticCallee(cc) == putState {
-				puts = append(puts, in)
+			if cc := eng.CallOf(in); cc != nil {
+				g := eng.StaticCallee(cc)
+				// putState itself, or a release helper of the package that only gives back
+				if g == putState || g != nil && g != fn && eng.FuncPkgPath(g) == eng.Mod+"/"+luaRel && reachesSync(g, putState) && !reachesSync(g, getState) {
+					puts = append(puts, in)
+				}
 			}
 		})
 		switch {
@@ -660,7 +654,34 @@ func (c *Ctx) c17Pool() {
 func returnsState(fn *ssa.Function) bool {
 	res := fn.Signature.Results()
 	for i := 0; i < res.Len(); i++ {
-		if strings.HasSuffix(res.At(i).Type().String(), "gopher-lua.LState") {
+		if carriesState(res.At(i).Type(), 0) {
+			return true
+		}
+	}
+	return false
+}
+
+// carriesState: t is *lua.LState or a (pointer to a) module struct with such a field.
+func carriesState(t types.Type, depth int) bool {
+	if depth > 2 {
+		return false
+	}
+	if strings.HasSuffix(t.String(), "gopher-lua.LState") {
+		return true
+	}
+	if pt, ok := t.(*types.Pointer); ok {
+		t = pt.Elem()
+	}
+	n, ok := t.(*types.Named)
+	if !ok || n.Obj().Pkg() == nil || !strings.HasPrefix(n.Obj().Pkg().Path(), eng.Mod) {
+		return false
+	}
+	st, ok := n.Underlying().(*types.Struct)
+	if !ok {
+		return false
+	}
+	for i := 0; i < st.NumFields(); i++ {
+		if strings.HasSuffix(st.Field(i).Type().String(), "gopher-lua.LState") {
 			return true
 		}
 	}
@@ -797,4 +818,65 @@ func (c *Ctx) c17Fresh() {
 		})
 	}
 	r.Floor("C17/LUA/fresh", "objects wrapped for Lua inside Lua-callable functions", n, 1)
+}
+
+// luaFailureYieldsNil: from each start block (taken when the Lua call failed) every return of
+// fn yields "no answer": nil for a pointer/interface result; for a bool-reporting helper
+// `false`, and then the same is required of every caller on the false outcome of the call.
+// Returns the position of an offending return, or "".
+func (c *Ctx) luaFailureYieldsNil(fn *ssa.Function, starts []*ssa.BasicBlock, depth int) string {
+	p := c.P
+	if depth > 3 || fn.Signature.Results().Len() != 1 {
+		return ""
+	}
+	_, isBool := fn.Signature.Results().At(0).Type().Underlying().(*types.Basic)
+	for _, st := range starts {
+		hit := eng.BlockReaches(st, func(x ssa.Instruction) bool {
+			ret, ok := x.(*ssa.Return)
+			if !ok {
+				return false
+			}
+			v := eng.ReturnResults(ret)[0]
+			if isBool {
+				b, isC := eng.ConstBool(v)
+				return !(isC && !b)
+			}
+			return !eng.IsNilConst(v)
+		}, nil)
+		if hit != nil {
+			return p.InstrPos(hit)
+		}
+	}
+	if !isBool {
+		return ""
+	}
+	for _, cs := range p.StaticCallSites(fn) {
+		caller := cs.Instr.Parent()
+		if eng.FuncPkgPath(caller) != eng.FuncPkgPath(fn) {
+			continue
+		}
+		callV, ok := cs.Instr.(*ssa.Call)
+		if !ok {
+			continue
+		}
+		if caller.Signature.Results().Len() == 0 {
+			continue // an after-handler: there is no answer to withhold
+		}
+		var falseEdges []*ssa.BasicBlock
+		for _, b := range caller.Blocks {
+			for k := 0; k < len(b.Succs) && len(b.Succs) == 2; k++ {
+				v, pol, ok := eng.CondTruth(b, k)
+				if ok && !pol && v == ssa.Value(callV) {
+					falseEdges = append(falseEdges, b.Succs[k])
+				}
+			}
+		}
+		if len(falseEdges) == 0 {
+			return p.InstrPos(callV) + " (the failure report of " + shortFn(fn) + " is not tested)"
+		}
+		if bad := c.luaFailureYieldsNil(caller, falseEdges, depth+1); bad != "" {
+			return bad
+		}
+	}
+	return ""
 }
